@@ -222,9 +222,10 @@ def run_thread_case(case):
     return res
 
 
-def execute(sc, replay=None, strategy=None, crash=None):
+def execute(sc, replay=None, strategy=None, crash=None, db_fault=None):
     c = dict(sc)
     c['crash'] = crash
+    c['db_fault'] = db_fault
     w = sh.SchedWorld(c, replay=replay, strategy=strategy)
     out = {'inconclusive': None}
     try:
@@ -257,7 +258,7 @@ def _unit_excs(w):
     return []
 
 
-def judge(sc, r, res, desc):
+def judge(sc, r, res, desc, allow_unit_exc=()):
     res['monitor_evaluations']['invocation-log'] += 1
     inv = {}
     for e in r['invocations']:
@@ -307,7 +308,7 @@ def judge(sc, r, res, desc):
                                       mech=a['mech'], msg=a['msg']))
     for ev in w.rec.events:
         if ev['kind'] == 'UNIT_END' and ev.get('exc') and \
-                ev['exc'] != 'Crash':
+                ev['exc'] != 'Crash' and ev['exc'] not in allow_unit_exc:
             viol('unit-died-%s' % ev['exc'],
                  'scheduler unit %s died with %s: %s' % (
                      ev['label'], ev['exc'], ev.get('exc_msg')))
@@ -371,6 +372,30 @@ def run_case(case):
         r = one(strategy=st, kind='random')
         if not r.get('inconclusive'):
             scheds.append(r['choices'])
+    # a transient database error (deadlock) at the k-th writing statement of
+    # one instance: nobody dies, so the full oracle applies (at least once,
+    # not early, exactly once, never if rolled back)
+    for choices in scheds[:1 if case['random'] <= 6 else 3]:
+        for inst in range(sc['instances']):
+            for k in range(1, 7):
+                r = execute(sc, replay=choices,
+                            db_fault={'instance': inst, 'k': k})
+                res['executions'] += 1
+                if r['inconclusive']:
+                    res['inconclusive'] = r['inconclusive']
+                    continue
+                hit = getattr(r['world'], 'db_fault_hit', {}).get('hit')
+                if not hit:
+                    break
+                res['monitor_evaluations']['db-deadlock'] = \
+                    res['monitor_evaluations'].get('db-deadlock', 0) + 1
+                res['interleavings'].append(r['ihash'])
+                judge(sc, r, res, {'scenario': sc, 'choices': r['choices'],
+                                   'db_fault': {'instance': inst, 'k': k},
+                                   'explore': 'db-deadlock'},
+                      allow_unit_exc=('DBDeadlock',))
+                res['keys'].append([sig, 'deadlock-%d-%d' % (inst, k),
+                                    r['ihash']])
     # crash enumeration on a few recorded schedules
     if sc['instances'] > 1 or True:
         prng.shuffle(scheds)
